@@ -249,7 +249,7 @@ def install(I):
                 return v.pv_isinstance(I, cls)
             return False
         raise Unsupported('isinstance against %r' % (cls,))
-    I.isinstance = _isinst
+    I.isinstance = lambda v, cls: _isinst(I, v, cls)
 
     @reg('issubclass')
     def _issubclass(I, fr, args, kwargs):
